@@ -112,6 +112,24 @@ func e4() {
 		}
 		rec()
 		res.SetAdd("states", fmt.Sprintf("E4|%v", st))
+		if st.perMin == 6 && st.cleanup == 0 && report.Shard == 0 {
+			// directed histories for the case enumeration cannot reach at this depth: a bucket that needs longer to
+			// refill than any idle timeout (1/min, burst 12), drained, left alone for k minutes, swept, drained again
+			for _, k := range []int{5, 10, 11, 12, 30} {
+				saved := st
+				st = setting{1, 12, time.Minute}
+				var h []string
+				for i := 0; i < 12; i++ {
+					h = append(h, "req")
+				}
+				h = append(h, fmt.Sprintf("t+%dm1s", k), "sweep")
+				for i := 0; i < 13; i++ {
+					h = append(h, "req")
+				}
+				run(h)
+				st = saved
+			}
+		}
 	}
 	if report.Expired() {
 		res.NotExhaustive("E4: time budget")
